@@ -116,6 +116,12 @@ def handle (line : String) : String :=
       let fuel := Pin.fuelShells qd ts (floatPairs vs)
       "ok " ++ showFloats ([Pin.cladOD cl, Pin.cladMW cl, tid, ts] ++ fuel)
     | _, _ => "bad-op"
+  | "clamp" :: rest =>
+    -- clamp m | lims...   (Orifice.clampGroup)
+    let (hd, ls) := splitBar rest
+    match floatList hd, floatList ls with
+    | some [m], some lims => "ok " ++ showFloats [Orifice.clampGroup m lims]
+    | _, _ => "bad-op"
   | "accept" :: rest =>
     -- accept length asmPitch flowGap(0/1) bypass | nRing pitch diam clad wire lowFid(0/1) ducts... | ... || bc bc ...
     -- (assemblies separated by "|", boundary conditions after "||"; a missing bc is the token "none")
